@@ -8,7 +8,7 @@ import re
 from harness import core, htmlnorm, treegen, trees, xdoc
 
 GEN = ['gen_tables', 'gen_regex', 'gen_config', 'gen_escapes', 'gen_core']
-THEOREMS = ['C03_link_with_emphasis', 'C03_link_with_emphasis_instance', 'C03_angle_link_in_sentence', 'C03_angle_link_instance', 'C03_fragment_autolink_instance', 'C03_autolink_in_sentence', 'C03_autolink_hypotheses', 'C03_titled_link_in_sentence', 'C03_titled_link_instance', 'C03_fragment_nested_emphasis_instance', 'C03_backslash_break', 'C03_backslash_break_hypotheses', 'C03_one_in_sentence', 'C03_fragment_one_instance', 'C03_fragment_breaks_instance', 'C03_breaks_in_paragraph_text', 'C03_breaks_instance', 'C03_image_in_sentence', 'C03_strike_in_sentence', 'C03_strike_in_sentence_hypotheses', 'C03_escape_in_sentence', 'C03_escape_in_sentence_hypotheses', 'C03_code_in_sentence', 'C03_code_in_sentence_hypotheses', 'C03_fragment_code_instance', 'C03_fragment_sentence_instance', 'C03_mixed_phrases', 'C03_mixed_phrases_instance', 'C03_link_phrases', 'C03_link_phrases_instance', 'C03_link_in_sentence', 'C03_fragment_link_instance', 'C03_fragment_seq_document', 'C03_fragment_seq_html', 'C03_fragment_lists_instance', 'C03_fragment_inert_instance', 'C03_fragment_emphasis_instance', 'C03_fragment_rules_instance', 'C03_thematic_break', 'C03_thematic_configs', 'C03_setext_heading', 'C03_setext_hypotheses', 'C03_indented_code_block', 'C03_indented_code_hypotheses', 'C03_link_scanners_are_the_source', 'C03_fragment_parses', 'C03_fragment_token_tree', 'C03_fragment_hypotheses', 'C03_fragment_fuel_suffices', 'C03_fragment_document',
+THEOREMS = ['C03_html_span_in_sentence', 'C03_html_tag_without_html_spans', 'C03_html_span_hypotheses', 'C03_link_with_emphasis', 'C03_link_with_emphasis_instance', 'C03_angle_link_in_sentence', 'C03_angle_link_instance', 'C03_fragment_autolink_instance', 'C03_autolink_in_sentence', 'C03_autolink_hypotheses', 'C03_titled_link_in_sentence', 'C03_titled_link_instance', 'C03_fragment_nested_emphasis_instance', 'C03_backslash_break', 'C03_backslash_break_hypotheses', 'C03_one_in_sentence', 'C03_fragment_one_instance', 'C03_fragment_breaks_instance', 'C03_breaks_in_paragraph_text', 'C03_breaks_instance', 'C03_image_in_sentence', 'C03_strike_in_sentence', 'C03_strike_in_sentence_hypotheses', 'C03_escape_in_sentence', 'C03_escape_in_sentence_hypotheses', 'C03_code_in_sentence', 'C03_code_in_sentence_hypotheses', 'C03_fragment_code_instance', 'C03_fragment_sentence_instance', 'C03_mixed_phrases', 'C03_mixed_phrases_instance', 'C03_link_phrases', 'C03_link_phrases_instance', 'C03_link_in_sentence', 'C03_fragment_link_instance', 'C03_fragment_seq_document', 'C03_fragment_seq_html', 'C03_fragment_lists_instance', 'C03_fragment_inert_instance', 'C03_fragment_emphasis_instance', 'C03_fragment_rules_instance', 'C03_thematic_break', 'C03_thematic_configs', 'C03_setext_heading', 'C03_setext_hypotheses', 'C03_indented_code_block', 'C03_indented_code_hypotheses', 'C03_link_scanners_are_the_source', 'C03_fragment_parses', 'C03_fragment_token_tree', 'C03_fragment_hypotheses', 'C03_fragment_fuel_suffices', 'C03_fragment_document',
             'C03_fragment_html', 'C03_fragment_markdown_html', 'C03_fragment_html_instance', 'C03_fragment_paragraph_lines_instance', 'C03_fragment_headings_instance', 'C03_outline_lists', 'C03_outline_html', 'C03_outline_instance',
             'C03_fragment_document_markdown', 'C03_fragment_document_configs', 'C03_bounded_trees', 'C03_family_is_not_vacuous']
 TRUSTED = ['harness/treegen.py: the tree grammar, the speller (every free choice drawn and counted) and the direct HTML writer - the independent oracle; '
@@ -688,6 +688,16 @@ def markdown_worker(text):
         return 'EXC %s: %s' % (type(e).__name__, e)
 
 
+def nohtml_worker(text):
+    from mistletoe import Document
+    from mistletoe.html_renderer import HtmlRenderer
+    try:
+        with HtmlRenderer(process_html_tokens=False) as r:
+            return r.render(Document(text))
+    except Exception as e:
+        return 'EXC %s: %s' % (type(e).__name__, e)
+
+
 def frag_worker(args):
     seed, depth = args
     rng = random.Random(seed)
@@ -856,6 +866,22 @@ def run(ctx, only=None):
         url = rng.choice(['http', 'https', 'ftp', 'mailto', 'x-1', 'a0']) + ':' + rng.choice(['//ex.am/a-b?c=d#e', '//user@host.ex/p', 'me@ex.am', '//h', '', '/p/q.html', '//é.ex/中', 'a+b,c;d'])
         ljobs.append((pre + '<' + url + '>' + post + '\n', '<p>' + escq(pre) + '<a href="%s">%s</a>' % (html_mod.escape(quote(url, safe='/#:()*?=%@+,&;')), escq(url)) + escq(post) + '</p>\n'))
         ctx.count('autolink_sentences')
+    # ... of C03_html_span_in_sentence / C03_html_tag_without_html_spans: a tag passes through as it stands, or - raw HTML switched off - is text
+    hjobs = []
+    for _ in range(200 if ctx.quick() else 4000):
+        pre = rng.choice(['so ', 'a: ', '(', 'x ', 'me@ex.am: ', 'é '])      # never empty: a tag that opens a line may open an HTML block
+        post = rng.choice(['', '.', ' bold', ', then more', ')', '" ok', '; z', 's'])
+        name = rng.choice(['b', 'em', 'my-widget2', 'x1', 'B', 'sup', 'a-', 'h1'])
+        ljobs.append((pre + '<' + name + '>' + post + '\n', '<p>' + escq(pre) + '<' + name + '>' + escq(post) + '</p>\n'))
+        hjobs.append((pre + '<' + name + '>' + post + '\n', '<p>' + escq(pre) + '&lt;' + name + '&gt;' + escq(post) + '</p>\n'))
+        ctx.count('html_span_sentences')
+    with mp.Pool(core.NPROC) as pool:
+        hres = pool.map(nohtml_worker, [t for t, _ in hjobs], chunksize=50)
+    for (text, want), got in zip(hjobs, hres):
+        ctx.count('evaluations')
+        if got != want:
+            ctx.failing.append({'interface': 'oracle(tag without raw HTML)', 'input': {'text': text, 'process_html_tokens': False},
+                                'what': 'with raw HTML switched off a tag in a sentence is not rendered as escaped text', 'observed': got, 'expected': want, 'kf': None})
     # ... of C03_angle_link_in_sentence
     for _ in range(200 if ctx.quick() else 4000):
         pre = rng.choice(['', 'see ', 'a: ', '(', 'x ', 'so, ', 'é ', 'me@ex.am: '])
